@@ -39,7 +39,8 @@ class Interp:
         self.last = None
         self.obs = []
 
-    def do(self, op):
+    def do(self, op, made=None):
+        """made: a context object / decorated function built beforehand by ANOTHER thread (the importing one)"""
         k = op[0]
         if k == 'get':
             self.last = pykoop.get_config()
@@ -50,9 +51,14 @@ class Interp:
         elif k == 'set':
             pykoop.set_config(skip_validation=op[1])
         elif k == 'enter':
-            cm = pykoop.config_context(skip_validation=op[1])
+            cm = made if made is not None else pykoop.config_context(skip_validation=op[1])
             cm.__enter__()
             self.stack.append(cm)
+        elif k == 'deco':
+            # a function decorated with config_context(...) observes the configuration while it runs
+            f = made if made is not None else pykoop.config_context(skip_validation=op[1])(
+                lambda: bool(pykoop.get_config()['skip_validation']))
+            self.obs.append(f())
         elif k in ('exit', 'exitexc'):
             if self.stack:
                 cm = self.stack.pop()
@@ -66,10 +72,19 @@ class Interp:
                         pass
 
 
-def run_script(script, n_threads):
+def run_script(script, n_threads, foreign=False):
     """script: list of (tid, op). tid 0 is the main (importing) thread; others are fresh
-    worker threads driven by a turn token so that the interleaving is exactly the script."""
+    worker threads driven by a turn token so that the interleaving is exactly the script.
+    foreign: every context object and decorated function is built up front by the calling thread and only
+    entered / called by the thread the script names (building one has no effect by itself)."""
     reset_config()
+    made = {}
+    if foreign:
+        for i, (t, op) in enumerate(script):
+            if op[0] == 'enter':
+                made[i] = pykoop.config_context(skip_validation=op[1])
+            elif op[0] == 'deco':
+                made[i] = pykoop.config_context(skip_validation=op[1])(lambda: bool(pykoop.get_config()['skip_validation']))
     interps = {t: Interp() for t in range(n_threads)}
     turn = {'i': 0}
     cv = threading.Condition()
@@ -84,7 +99,7 @@ def run_script(script, n_threads):
                     if turn['i'] >= len(script):
                         return
                     op = script[turn['i']][1]
-                    interps[t].do(op)
+                    interps[t].do(op, made.get(turn['i']))
                     turn['i'] += 1
                     cv.notify_all()
         except Exception as e:  # noqa
@@ -118,8 +133,10 @@ def gen_script(rng, n_threads, n_ops):
             op = ('mut', bool(rng.integers(0, 2)))
         elif r < 0.62:
             op = ('set', vals[int(rng.integers(0, 3))])
-        elif r < 0.82 and depth[t] < 3:
+        elif r < 0.78 and depth[t] < 3:
             op = ('enter', vals[int(rng.integers(0, 3))]); depth[t] += 1
+        elif r < 0.84:
+            op = ('deco', vals[int(rng.integers(0, 3))])
         elif depth[t] > 0:
             op = ('exit',) if rng.random() < 0.6 else ('exitexc',); depth[t] -= 1
         else:
@@ -145,6 +162,8 @@ def coq_op(op):
         return f'(OEnter {ob[op[1]]})'
     if k == 'exit':
         return 'OExit'
+    if k == 'deco':
+        return f'(OEnter {ob[op[1]]}); (0%nat, OGet); (0%nat, OExit'     # expanded by coq_ops
     return 'OExitExc'
 
 
@@ -165,6 +184,8 @@ def oracle(script, n_threads):
                 val[t] = op[1]
         elif k in ('exit', 'exitexc') and stack[t]:
             val[t] = stack[t].pop()
+        elif k == 'deco':
+            obs[t].append(val[t] if op[1] is None else op[1])
     return obs
 
 
@@ -176,7 +197,8 @@ def thread_scripts(rng, n):
     for k in range(n):
         nt = int(rng.integers(1, 4))
         script = gen_script(rng, nt, int(rng.integers(4, 22)))
-        obs, errors = run_script(script, nt)
+        foreign = bool(k % 3 == 2)
+        obs, errors = run_script(script, nt, foreign=foreign)
         want = oracle(script, nt)
         stats['threads'][str(nt)] = stats['threads'].get(str(nt), 0) + 1
         stats['ops'] += len(script)
@@ -184,14 +206,19 @@ def thread_scripts(rng, n):
         if errors or any(obs[t] != want[t] for t in range(nt)):
             bad.append(dict(what='a thread observed a configuration value other than the one set by its own '
                                  'well-bracketed history (isolation / restoration broken)',
-                            script=[[t, list(o)] for t, o in script], observed=obs, expected=want, errors=errors))
-        ops = '[' + '; '.join(f'({t}%nat, {coq_op(o)})' for t, o in script) + ']'
+                            script=[[t, list(o)] for t, o in script], observed=obs, expected=want, errors=errors,
+                            contexts_built_by_the_main_thread=foreign))
+        # a decorated call is enter / observe / leave in the model
+        flat = []
+        for t, o in script:
+            flat += [(t, ('enter', o[1])), (t, ('get',)), (t, ('exit',))] if o[0] == 'deco' else [(t, o)]
+        ops = '[' + '; '.join(f'({t}%nat, {coq_op(o)})' for t, o in flat) + ']'
         checks = []
         for t in range(nt):
             ob = '[' + ';'.join('true' if b else 'false' for b in obs[t]) + ']'
             checks.append((f'thread{t}', f'list_eqb Bool.eqb (obs_of {t}%nat (observe cfg_flags s{k})) {ob}'))
         batch.add(f'Definition s{k} : list (nat * op) := {ops}.', checks,
-                  dict(script=[[t, list(o)] for t, o in script], observed=obs))
+                  dict(script=[[t, list(o)] for t, o in script], observed=obs, contexts_built_by_the_main_thread=foreign))
         if len(samples) < 2:
             samples.append(dict(threads=nt, script=[[t, list(o)] for t, o in script], observed=obs))
     failed, errors = batch.run(shard=60)
@@ -325,7 +352,8 @@ def run(res, tier):
         traces_validated_against_impl=n_scripts,
         rule=('M4: config.py and every use of the skip_validation flag are re-translated from the source on this run into '
               'Gen/Config.v (copy/alias/finally shape) and Gen/Guards.v (one fact per guard site); BridgeC20.v must '
-              're-check. M3: random scripts of get/set/config_context enter/exit/exception-exit/mutate-returned-dict on 1-3 '
+              're-check. M3: random scripts of get/set/config_context enter/exit/exception-exit/mutate-returned-dict/call of a function decorated with config_context, '
+              'the context objects and decorated functions of every third script built beforehand by the importing thread, on 1-3 '
               'threads (thread 0 = the importing thread, others fresh), real threads driven by a turn token so the '
               'interleaving is the scripted one; every thread\'s observations are compared inside Coq with the model run '
               'with the GENERATED shape, and with an independent oracle. Direct: transform / inverse_transform / predict / '
@@ -347,7 +375,7 @@ def replay(path):
     if 'script' in c:
         script = [(t, tuple(o)) for t, o in c['script']]
         nt = max(t for t, _ in script) + 1
-        obs, errors = run_script(script, nt)
+        obs, errors = run_script(script, nt, foreign=bool(c.get('contexts_built_by_the_main_thread', False)))
         want = oracle(script, nt)
         ok = not errors and all(obs[t] == want[t] for t in range(nt))
         print('replay: property holds now' if ok else 'replay: still failing', obs, want)
